@@ -411,6 +411,7 @@ func selfExe() string {
 func runKeysChild(prop string, extra []string) ([]violatedKey, string) {
 	args := append([]string{"-keys-only", "-prop", prop, "-repo", *flagRepo, "-verif", *flagVerif}, extra...)
 	cmd := exec.Command(selfExe(), args...)
+	cmd.Env = append(os.Environ(), "GOMAXPROCS=4")
 	var out, errb bytes.Buffer
 	cmd.Stdout, cmd.Stderr = &out, &errb
 	if err := cmd.Run(); err != nil {
